@@ -72,6 +72,8 @@ def main(ctx):
             # covers the CONNECT phase as well
             if j["sc"] == "open" and j["role"] == "client":
                 jobs.append(dict(j, proxy=True))
+                # ... the proxy answers at once, the server behind it late or never
+                jobs.append(dict(j, proxy="early"))
         ctx.pmap({"fw": fw, "nvx": "1"}, "props.c17:job", jobs)
     ctx.coverage["states"] = int(ctx.counters["configs"])
     ctx.coverage["transitions"] = int(ctx.counters["evaluations"])
@@ -81,7 +83,7 @@ def main(ctx):
               "close:responsive_ok", "drop:silent_dropped", "drop:responsive_ok",
               "ping:silent_dropped", "ping:responsive_ok", "ping:data_counts",
               "ping:data_does_not_count", "after_closed_checked", "pings_seen", "disabled_ok",
-              "stalled_peer_jobs", "ping:fragment_as_traffic", "proxy_jobs", "close_started_by_failing", "close_with_autoping", "ping_size_125", "ping:connection_ends_with_ping_outstanding", "ping:app_between_streamed_frames", "ping:app_closes_with_ping_outstanding",
+              "stalled_peer_jobs", "ping:fragment_as_traffic", "proxy_jobs", "proxy_answers_at_once", "close_started_by_failing", "close_with_autoping", "ping_size_125", "ping:connection_ends_with_ping_outstanding", "ping:app_between_streamed_frames", "ping:app_closes_with_ping_outstanding",
               "peerclose_echo"):
         ctx.require(n)
 
@@ -117,12 +119,31 @@ class Run:
     def now(self):
         return round(self.conn.now() - self.t0, 6)
 
+    def proxy_answer(self):
+        """the proxy accepts the CONNECT at once; the server's answer comes (or does not come) later"""
+        if self.proxy and not getattr(self, "proxy_done", False):
+            self.conn.settle()
+            self.ep.feed(b"HTTP/1.1 200 Connection established\r\n\r\n")
+            self.conn.settle()
+            self.proxy_done = True
+
     def handshake(self):
         ep = self.ep
         if self.role == "server":
             ep.feed(ep.server_request())
         else:
             self.conn.settle()
+            if self.proxy and getattr(self, "proxy_done", False):
+                if self.conn.lost or not self.t.reading():
+                    self.hs_len = len(self.t.written)
+                    self.parsed = self.hs_len
+                    return
+                # only the octets after the CONNECT request are the WebSocket request
+                req = bytes(self.t.written)
+                ep.feed(ep.client_response(req[req.find(b"GET "):] if b"GET " in req else req))
+                self.hs_len = len(self.t.written)
+                self.parsed = self.hs_len
+                return
             if self.proxy:
                 # the proxy accepts the CONNECT, then the server answers the handshake
                 ep.feed(b"HTTP/1.1 200 Connection established\r\n\r\n")
@@ -274,6 +295,9 @@ def job(a):
             r = Run(role, {"openHandshakeTimeout": D, "closeHandshakeTimeout": 1}, start)
             evals[0] += 1
             acts = {} if react is None else {react: r.handshake}
+            if a.get("proxy") == "early":
+                acts = [(0.0, r.proxy_answer)] + sorted(acts.items())
+                count("proxy_answers_at_once")
             r.run_until(D + 2.0, acts)
             case = {"react": react}
             if react is None or react > D + 1e-9:
